@@ -3,12 +3,13 @@
 (* the wire formats of Sdk.tla.  One initial state per observation record; one invariant per clause.           *)
 EXTENDS SdkModels, Json, IOUtils
 Obs == JsonDeserialize(IOEnv.VERIF_OBS)
-VARIABLES i, expj, expx
+\* (TLC does not cache Obs -- it would re-read the file at every use -- so the records are enumerated once, as a set, and
+\* the record itself is the state; Rec.idx is its index in the harness's list)
+VARIABLES Rec, expj, expx
 ModelOf(o) == IF o.pa = 0 THEN FixedModels[o.mi] ELSE ParamModel(o.pa, o.pb)
 Init1(o, m) == expj = ToJ(m, o.x) /\ expx = ToX(m, o.x)
-Init == i \in 1..Len(Obs) /\ Init1(Obs[i], ModelOf(Obs[i]))
-Next == UNCHANGED <<i, expj, expx>>
-Rec == Obs[i]
+Init == Rec \in ToSet(Obs) /\ Init1(Rec, ModelOf(Rec))
+Next == UNCHANGED <<Rec, expj, expx>>
 Accepted(v) == [o |-> "accepted", v |-> v]
 
 \* the generator produced an importable SDK for the (accepted) meta-model and the instance could be built through it
